@@ -27,7 +27,18 @@ Not judged (ambiguous or outside the statement): sparse LIST writes, the lower b
 aggregate, indexing of BAG/SET, which exception class signals a refusal (any of IndexError, TypeError, AssertionError,
 ValueError, KeyError counts as "refused"; any other exception class is reported as a failure of the operation).
 
-Values are (type_name, python_value) tuples; states are hashable tuples; the model is purely functional.
+Base types that are themselves aggregates ("elements of the declared base type" for BAG OF ARRAY [1:2] OF LIST OF REAL):
+a type descriptor is a simple type name or (kind, b1, b2, T).  An aggregate-valued element is (T', token, mode): an
+instance of type T' (token = identity AND value: different tokens are different objects holding different innermost
+values, the same token is the same object; mode says how its declaration objects were built - irrelevant for EXPRESS).
+It is of the declared base type T iff T' and T agree level by level in: the aggregate KIND; the bounds of an ARRAY (they
+are its index range, ISO 10303-11 8.2.1/9.2.6: an ARRAY [1:3] is no ARRAY [1:2]); the nesting depth; the innermost simple
+type.  Judged 'either': T' differs from T only in the bounds of a LIST/BAG/SET level (narrower bounds are a specialization,
+wider ones a question of the value's size) or by INTEGER where REAL is declared.  UNIQUE/OPTIONAL of inner levels are not
+varied.  The position of the outermost hard difference (nesting level 1 = the element's own kind/bounds) is named in the
+reason.  Everything else (bounds, capacity, uniqueness by token, reads, queries) is the model above, unchanged.
+
+Values are (type_name, python_value) or (T', token, mode) tuples; states are hashable tuples; the model is purely functional.
 """
 from collections import namedtuple
 
@@ -41,8 +52,92 @@ Cfg = namedtuple('Cfg', 'kind b1 b2 unique optional base')
 Expect = namedtuple('Expect', 'verdict reason want')
 
 
+def tt(t):
+    """type descriptor from JSON (nested lists) -> hashable nested tuple."""
+    if isinstance(t, str):
+        return t
+    return (t[0], t[1], t[2], tt(t[3]))
+
+
+def is_agg(t):
+    return not isinstance(t, str)
+
+
+def type_depth(t):
+    n = 0
+    while is_agg(t):
+        n, t = n + 1, t[3]
+    return n
+
+
+def innermost(t):
+    while is_agg(t):
+        t = t[3]
+    return t
+
+
+def type_text(t):
+    if not is_agg(t):
+        return t
+    return '%s [%s:%s] OF %s' % (t[0], t[1], '?' if t[2] is None else t[2], type_text(t[3]))
+
+
+def type_diff(decl, got, level=1):
+    """-> (hard, soft): hard = the outermost difference that makes `got` another EXPRESS type than `decl` (None: no such
+    difference), soft = True when there is a difference this oracle does not judge."""
+    if not is_agg(decl) and not is_agg(got):
+        if decl == got:
+            return None, False
+        if decl == 'REAL' and got == 'INTEGER':
+            return None, True
+        return 'innermost simple type differs', False
+    if not is_agg(decl) or not is_agg(got):
+        if level == 1:
+            return ('simple value where an aggregate is declared' if is_agg(decl) else 'aggregate where a simple type is declared'), False
+        return 'nesting depth differs at nesting level %d' % level, False
+    if decl[0] != got[0]:
+        return 'kind differs at nesting level %d' % level, False
+    hard, soft = None, False
+    if (decl[1], decl[2]) != (got[1], got[2]):
+        if decl[0] == 'ARRAY':
+            hard = 'ARRAY bounds differ at nesting level %d' % level
+        else:
+            soft = True
+    h2, s2 = type_diff(decl[3], got[3], level + 1)
+    return hard or h2, soft or s2
+
+
+TYPE_MARK = 'aggregate element'
+SEPARATE_REASON = 'store aggregate element of the declared type, declaration built separately'
+
+
+def _type_expect(c, v, w):
+    """-> Expect when the type of value v decides the outcome of a write/add, else None (v is of the base type)."""
+    if not is_agg(c.base) and not is_agg(v[0]):
+        return None if v[0] == c.base else Expect('refuse', w + ' wrong type', None)
+    hard, soft = type_diff(c.base, v[0])
+    if hard:
+        return Expect('refuse', '%s %s: %s' % (w, TYPE_MARK, hard), None)
+    if soft:
+        return Expect('either', '%s %s: type differs only in LIST/BAG/SET bounds or INTEGER for REAL (not judged)' % (w, TYPE_MARK), None)
+    return None
+
+
+def _stored(v, exp):
+    return exp
+
+
+def separately_declared(c, exp, op):
+    """True for an operation that must be accepted and stores an aggregate element of the declared type whose
+    declaration objects were built separately (irrelevant for EXPRESS; the runtime must not care)."""
+    if op is None or op[0] not in ('set', 'add') or exp.verdict != 'accept':
+        return False
+    v = val(op[-1])
+    return is_agg(v[0]) and v[2] == 'separate'
+
+
 def cfg_from_json(d):
-    return Cfg(d['kind'], d['b1'], d['b2'], bool(d['unique']), bool(d['optional']), d['base'])
+    return Cfg(d['kind'], d['b1'], d['b2'], bool(d['unique']), bool(d['optional']), tt(d['base']))
 
 
 def cfg_json(c):
@@ -52,7 +147,7 @@ def cfg_json(c):
 def cfg_text(c):
     b = '[%s:%s]' % (c.b1, '?' if c.b2 is None else c.b2)
     fl = (' OPTIONAL' if c.optional else '') + (' UNIQUE' if c.unique else '')
-    return '%s %s OF%s %s' % (c.kind, b, fl, c.base)
+    return '%s %s OF%s %s' % (c.kind, b, fl, type_text(c.base))
 
 
 def cfg_class(c, op=None):
@@ -84,7 +179,9 @@ def initial(c):
 
 
 def val(v):
-    return (v[0], v[1])
+    if isinstance(v[0], str):
+        return (v[0], v[1])
+    return (tt(v[0]), v[1], v[2])
 
 
 def _dense_prefix(d):
@@ -118,13 +215,14 @@ def judge(c, st, op):
                     return Expect('accept', 'read unset element (OPTIONAL)', ('val', None))
                 return Expect('refuse', 'read unset element (not OPTIONAL)', None)
             v = val(op[2])
-            if v[0] != c.base:
-                return Expect('refuse', 'write wrong type', None)
+            te = _type_expect(c, v, 'write')
+            if te is not None:
+                return te
             if c.unique and any(x == v for j, x in d.items() if j != i):
                 return Expect('refuse', 'write duplicate of another element (UNIQUE)', None)
             if c.unique and d.get(i) == v:
-                return Expect('accept', 'rewrite same value at same index (UNIQUE)', None)
-            return Expect('accept', 'overwrite element' if i in d else 'write unset element', None)
+                return _stored(v, Expect('accept', 'rewrite same value at same index (UNIQUE)', None))
+            return _stored(v, Expect('accept', 'overwrite element' if i in d else 'write unset element', None))
         if t == 'q':
             n = c.b2 - c.b1 + 1
             q = op[1]
@@ -152,16 +250,17 @@ def judge(c, st, op):
                     return Expect('accept', 'read element', ('val', d[i]))
                 return Expect('refuse', 'read position never written', None)
             v = val(op[2])
-            if v[0] != c.base:
-                return Expect('refuse', 'write wrong type', None)
+            te = _type_expect(c, v, 'write')
+            if te is not None:
+                return te
             if c.unique and any(x == v for j, x in d.items() if j != i):
                 return Expect('refuse', 'write duplicate of another element (UNIQUE)', None)
             if i in d:
                 if c.unique and d[i] == v:
-                    return Expect('accept', 'rewrite same value at same index (UNIQUE)', None)
-                return Expect('accept', 'overwrite element', None)
+                    return _stored(v, Expect('accept', 'rewrite same value at same index (UNIQUE)', None))
+                return _stored(v, Expect('accept', 'overwrite element', None))
             if i == _dense_prefix(d) + 1:
-                return Expect('accept', 'append at next position', None)
+                return _stored(v, Expect('accept', 'append at next position', None))
             return Expect('either', 'sparse write (not judged)', None)
         if t == 'q':
             q = op[1]
@@ -180,13 +279,14 @@ def judge(c, st, op):
     else:  # BAG, SET
         if t == 'add':
             v = val(op[1])
-            if v[0] != c.base:
-                return Expect('refuse', 'add wrong type', None)
+            te = _type_expect(c, v, 'add')
+            if te is not None:
+                return te
             if c.kind == 'SET' and v in st:
                 return Expect('either', 'add element already present', None)
             if c.b2 is not None and len(st) >= c.b2:
                 return Expect('refuse', 'add new element to full container', None)
-            return Expect('accept', 'add new element below upper bound', None)
+            return _stored(v, Expect('accept', 'add new element below upper bound', None))
         if t == 'q':
             q = op[1]
             if q in ('get_size', 'get_hiindex'):
@@ -213,7 +313,7 @@ def apply(c, st, op):
         v = val(op[1])
         if c.kind == 'SET' and v in st:
             return st
-        return tuple(sorted(st + (v,)))
+        return tuple(sorted(st + (v,), key=repr))
     return st
 
 
@@ -224,6 +324,8 @@ def is_mutation(op):
 def compare(exp, op, out):
     """Real outcome out = ['v', type, repr] | ['x', class, msg] against Expect -> None (agrees) or a short symptom."""
     exc = out[0] == 'x'
+    if out[0] == 'b':
+        return None                          # element could not be built: reported as inconclusive by the caller
     if exc and out[1] not in REFUSAL_EXC:
         return 'fails with %s' % out[1]
     if exp.verdict == 'either':
@@ -243,6 +345,8 @@ def compare(exp, op, out):
             return None if tn == 'NoneType' else 'returns a value for an unset element'
         if tn == 'NoneType':
             return 'returns None'
+        if is_agg(w[1][0]):
+            return None if (tn == 'AGG' and rp == repr(w[1][1])) else 'returns a different value'
         if tn != w[1][0] or rp != repr(w[1][1]):
             return 'returns a different value'
         return None
@@ -266,11 +370,21 @@ def compare(exp, op, out):
 
 
 def finding_key(c, exp, got, op=None):
-    return '%s|%s|expected %s, %s' % (cfg_class(c, op), exp.reason, exp.verdict, got)
+    if got == 'refused with TypeError' and separately_declared(c, exp, op):
+        # a right-typed element refused for its TYPE: one defect whatever position it was written to
+        return '%s OF aggregate|%s|expected accept, %s' % (c.kind, SEPARATE_REASON, got)
+    if TYPE_MARK in exp.reason:
+        # whether an aggregate-valued element is of the base type does not depend on the container's bounds or on the index
+        cls = '%s OF %s' % (c.kind, 'aggregate' if is_agg(c.base) else 'simple type')
+    else:
+        cls = cfg_class(c, op)
+    return '%s|%s|expected %s, %s' % (cls, exp.reason, exp.verdict, got)
 
 
 def op_text(op):
     def v(x):
+        if is_agg(tt(x[0])):
+            return '<%s #%s, %s declaration>' % (type_text(tt(x[0])), x[1], x[2])
         return '%s(%r)' % (x[0], x[1])
     if op[0] == 'set':
         return 'x[%d] = %s' % (op[1], v(op[2]))
